@@ -6,6 +6,8 @@ op:
    "runs":[{"path":n,"chunks":[c…],"overwrite":b,"crash":"none"|"open"|"close"|"replace"|["write",k,partly]}…]}
      → {"steps":[{"outcome":"done"|"skipped"|"failed","target":null|[["f",c]|["p",c]…],"tmp":b}…]}
   (state of the run's own target and temporary sibling after each run, starting from an empty directory)
+  optional "paths":[n…] (histories over several output files): every step also carries
+     "all":[{"target":…,"tmp":b}…] — the state of every listed output file after the run, in the order given
 -/
 open Lean Wire GenFile
 
@@ -35,6 +37,10 @@ def pieceJson : Piece → Json
   | .full c => Json.arr #["f", toJson c]
   | .part c => Json.arr #["p", toJson c]
 
+def contentJson : Option Content → Json
+  | some c => Json.arr (c.map pieceJson).toArray
+  | none => Json.null
+
 def outcomeStr : Outcome → String
   | .done => "done"
   | .skipped => "skipped"
@@ -48,14 +54,20 @@ def handle (j : Json) : Json :=
       | some "new" => some exportNew
       | some "pinned" => some exportPinned
       | _ => none
-    match exp?, (getArr? j "runs").bind (fun a => a.toList.mapM parseRun) with
-    | some exp, some runs =>
-      let steps := (trace exp FS.empty runs).map fun (o, tgt, tmp) =>
-        Json.mkObj [("outcome", outcomeStr o),
-          ("target", match tgt with | some c => Json.arr (c.map pieceJson).toArray | none => Json.null),
-          ("tmp", tmp)]
+    -- "paths" is optional; when the key is present it must decode
+    let paths? : Option (List Nat) :=
+      match j.getObjVal? "paths" with
+      | .ok _ => getNatList? j "paths"
+      | .error _ => some []
+    match exp?, (getArr? j "runs").bind (fun a => a.toList.mapM parseRun), paths? with
+    | some exp, some runs, some paths =>
+      let steps := (traceOn exp paths FS.empty runs).map fun (o, tgt, tmp, all) =>
+        Json.mkObj ([("outcome", Json.str (outcomeStr o)), ("target", contentJson tgt), ("tmp", Json.bool tmp)] ++
+          (if paths.isEmpty then [] else
+            [("all", Json.arr (all.map fun (c, t) =>
+              Json.mkObj [("target", contentJson c), ("tmp", Json.bool t)]).toArray)]))
       Json.mkObj [("steps", Json.arr steps.toArray)]
-    | _, _ => badOp
+    | _, _, _ => badOp
   | _ => badOp
 
 def main : IO Unit := serve handle
